@@ -525,3 +525,8 @@ Proof.
     + exfalso. exact (deserialize_sg_never_stuck false mx sh bs E2).
   - exfalso. exact (deserialize_never_stuck mx sh bs E).
 Qed.
+
+Theorem deserialize_sg_agrees sg mx sh bs s :
+  (sg = true -> mx < 9223372036854775808) ->
+  (cm_deserialize_sg sg mx sh bs = Ok (Some s) <-> cm_deserialize mx sh bs = Ok s).
+Proof. intros Hs. split; [apply deserialize_sg_some|apply deserialize_plain_sg; exact Hs]. Qed.
